@@ -420,7 +420,16 @@ func TestC17(t *testing.T) {
 	})
 
 	check(rec, "reread-random", scale(5000, 4000000), func(rt *rapid.T) {
-		doc := gen.JSONDoc(gen.DocOpts{Depth: rapid.IntRange(1, 4).Draw(rt, "depth"), MaxItems: 3, SafeStr: true, ForceEmpty: true}).Draw(rt, "doc")
+		opts := gen.DocOpts{Depth: rapid.IntRange(1, 4).Draw(rt, "depth"), MaxItems: 3, SafeStr: true, ForceEmpty: true}
+		if rapid.IntRange(0, 7).Draw(rt, "wide") == 0 {
+			// wide containers: beyond small-size special cases of maps and sorts
+			opts.MaxItems = 40
+			opts.Depth = rapid.IntRange(1, 2).Draw(rt, "widedepth")
+			for i := 0; i < 48; i++ {
+				opts.Keys = append(opts.Keys, fmt.Sprintf("k%02d", (i*29)%48), fmt.Sprintf("K%02d", i))
+			}
+		}
+		doc := gen.JSONDoc(opts).Draw(rt, "doc")
 		c := &C17Doc{Doc: gen.Compact(doc)}
 		msg := c17DocCheck(c)
 		rec.Case(c.Doc, doc.K == jsonx.Arr || doc.K == jsonx.Obj, "reread")
